@@ -114,6 +114,22 @@ def expect_arg(a, rend):
     raise ValueError(k)
 
 
+def shown_line(spec):
+    """what the tool shows for a decoded but unresolvable message (exact current-dialect values)"""
+    def show(a):
+        k = a[0]
+        if k == 'int': return str(a[1])
+        if k == 'uint': return str(a[1] & 0xffffffff)
+        if k == 'fixed': return str(a[1] / 256.0)
+        if k == 'str': return 'null ??' if a[1] is None else repr(a[1])
+        if k == 'obj': return 'null ??' if a[2] is None else 'unresolved %s@%d?' % (a[1], a[2])
+        if k == 'new': return 'new unresolved %s@%d?' % (a[1] if a[1] is not None else '???', a[2])
+        if k == 'array': return '[...]'
+        return 'fd %d' % a[1]
+    return ('→ ' if spec['sent'] else '') + 'unresolved %s@%d?.%s(' % (spec['iface'], spec['id'], spec['name']) + ', '.join(show(a) for a in spec['args']) + ')' + (
+        '' if spec['sent'] else ' ↲')
+
+
 def compare(res, spec, rend, line):
     """decode `line` and compare with the spec it was rendered from"""
     from backends.libwayland_debug_output import parse
@@ -150,18 +166,7 @@ def compare(res, spec, rend, line):
                 res.bad('arg:%s%s->%s%s' % (a[0], sub, g[0], tag), '%r arg %d decoded %r, denotes %r' % (line, i, g, e))
     # second observation point: the arguments shown on the output line for that message
     if rend == 'new' and not res.discs:
-        def show(a):
-            k = a[0]
-            if k == 'int': return str(a[1])
-            if k == 'uint': return str(a[1] & 0xffffffff)
-            if k == 'fixed': return str(a[1] / 256.0)
-            if k == 'str': return 'null ??' if a[1] is None else repr(a[1])
-            if k == 'obj': return 'null ??' if a[2] is None else 'unresolved %s@%d?' % (a[1], a[2])
-            if k == 'new': return 'new unresolved %s@%d?' % (a[1] if a[1] is not None else '???', a[2])
-            if k == 'array': return '[...]'
-            return 'fd %d' % a[1]
-        exp = ('→ ' if spec['sent'] else '') + 'unresolved %s@%d?.%s(' % (spec['iface'], spec['id'], spec['name']) + ', '.join(show(a) for a in spec['args']) + ')' + (
-            '' if spec['sent'] else ' ↲')
+        exp = shown_line(spec)
         if str(msg) != exp:
             res.bad('shown-line' + tag, 'decoded message is shown as %r, the line denotes %r' % (str(msg), exp))
     return conn_id
@@ -219,6 +224,56 @@ class RoundTrip(Stage):
         for a in spec['args']:
             res.label('kind:' + a[0] + (':nil' if a[-1] is None and a[0] in ('str', 'obj') else ''))
         res.sample = dict(lines=[l for _, l in renderings(case)][:2])
+        return res
+
+
+class LineLoop(Stage):
+    """the same lines through the tool's line loop (file-like reader): each message line must come out as exactly the
+    message it denotes, however long it is and whatever surrounds it"""
+    name = 'line-loop'
+
+    def examples(self, tier):
+        return 300 if tier == 'quick' else 14 * 3000
+
+    def gen(self, d, tier):
+        specs = []
+        for _ in range(d.int(1, 5)):
+            sp = gen_spec(d, max_args=8)
+            sp['iface'] = 'zz_' + sp['iface']        # never a described interface: shown undecorated whatever the message is
+            if sp['iface'] == 'zz_wl_registry' or sp['name'] in ('bind', 'delete_id'):
+                sp['name'] = 'frob'
+            for a in sp['args']:
+                if a[0] == 'new':
+                    a[1] = None        # untyped: creates nothing, so every object mention stays unresolved and the shown line is fixed
+                if a[0] in ('new', 'obj') and a[2] == 1:
+                    a[2] = 2           # id 1 is the connection's wl_display, which does exist
+                if a[0] == 'str' and a[1] is not None and d.chance(0.15):
+                    a[1] = (a[1] or 'x') * d.choice([300, 1200, 5000])
+                    a[1] = a[1][:d.choice([4000, 4080, 4096, 5000, 9000])]
+            specs.append(sp)
+        return dict(specs=specs, queue=d.choice([None, 'Default Queue', 'q']), final_newline=d.chance(0.7))
+
+    def execute(self, case):
+        from .. import session
+        res = Result()
+        specs = case['specs']
+        lines = [wire.render(sp, 'new', queue=case.get('queue')) for sp in specs]
+        items = [['line', l] for l in lines[:-1]] + [['line' if case['final_newline'] else 'raw', lines[-1]]]
+        s = session.Session()
+        segs = s.run(items)
+        segs = [g for g in segs if g.kind in ('line', 'raw')]
+        res.evals = len(specs)
+        for sp, line, seg in zip(specs, lines, segs):
+            shown = [l for l in seg.out_lines() if session.MSG_LINE.match(l)]
+            if len(shown) != 1:
+                res.bad('line-loop:not-exactly-one-message', '%d-character line %r... produced %d message lines (%r)' % (len(line), line[:80], len(shown), seg.out_lines()[:2]))
+                continue
+            body = session.MSG_LINE.match(shown[0]).group(3)
+            if body != shown_line(sp):
+                res.bad('line-loop:shown-line', 'shown %r..., denotes %r...' % (body[:160], shown_line(sp)[:160]))
+        res.nontrivial = any(len(l) > 1000 for l in lines) or len(specs) > 1
+        if any(len(l) > 4096 for l in lines): res.label('line>4096')
+        res.sample = dict(lengths=[len(l) for l in lines], first=lines[0][:120])
         return res
 
 
@@ -299,10 +354,11 @@ class C01(Prop):
     rule = ('roundtrip: a message spec (iface, id, name, direction, 32-bit time, 0..20 args of every kind) drawn by Hypothesis is '
             'printed by a port of wl_closure_print in old/old-comma/current(/queue) form and decoded; non-trivial = >=2 arguments, or a '
             'string with a separator character or a look-alike string, or a connection/queue tag; distinct by SHA-1 of the case. '
-            'nonmessage: chatter without timestamp-shaped token, blanks and near-misses of valid lines; non-trivial = not blank.')
+            'nonmessage: chatter without timestamp-shaped token, blanks and near-misses of valid lines; non-trivial = not blank. line-loop: 1-5 such lines '
+            '(strings up to 9000 characters) through the line loop and the live view; the shown line must be the message the line denotes.')
     assumptions = ['wire.py is a faithful port of libwayland wl_closure_print (old dialect checked byte-for-byte against the shipped sample logs)',
                    'strings exclude \'"\' and backslash, ids exclude 0, no `discarded` lines (stated bounds of the property)']
-    stages = [RoundTrip(), NonMessages()]
+    stages = [RoundTrip(), NonMessages(), LineLoop()]
 
 
 PROP = C01()
